@@ -320,7 +320,7 @@ func (e *Engine) strConcat(te *TypeEnv, a, b Term) Term {
 	te.G.DeclareFun("str.hasPrefix", []string{SStr, SStr}, SBool)
 	te.G.DeclareFun("str.cutPrefix", []string{SStr, SStr}, SStr)
 	te.G.AddAxiom("concat.prefix", "(assert (forall ((p Str) (a Str)) (! (and (str.hasPrefix (str.concat p a) p) (= (str.cutPrefix (str.concat p a) p) a)) :pattern ((str.concat p a)))))", "str.concat")
-	te.G.AddAxiom("prefix.concat", "(assert (forall ((s Str) (p Str)) (! (=> (str.hasPrefix s p) (= (str.concat p (str.cutPrefix s p)) s)) :pattern ((str.hasPrefix s p)))))", "str.hasPrefix", "str.concat")
+	te.G.AddAxiom("prefix.concat", "(assert (forall ((s Str) (p Str)) (! (=> (str.hasPrefix s p) (= (str.concat p (str.cutPrefix s p)) s)) :pattern ((str.hasPrefix s p)))))", "str.hasPrefix")
 	return app(SStr, "str.concat", a, b)
 }
 
